@@ -175,7 +175,7 @@ fn contract_delta(d: &Ledger) -> BTreeMap<String, i128> {
 fn denoms_disjoint(c: &Cfg) -> bool {
     let mut left: Vec<&String> = c.convs.iter().collect();
     left.push(&c.base);
-    !left.iter().any(|d| c.quotes.contains(d)) && !c.convs.contains(&c.base)
+    !left.iter().any(|d| c.quotes.contains(d))
 }
 
 pub fn msg_body<'a>(msg: &'a Value) -> (&'a str, &'a Value) {
